@@ -42,6 +42,8 @@ Record InvA (s : state) : Prop := {
   a_unalloc : forall u, (nsig s <= u)%nat -> ugroups s u = [];
   a_munalloc : forall m, (nmsg s <= m)%nat -> glay s m = [];
   a_refs : forall x e, (x < nsig s)%nat -> kind s x = KEnum e -> In x (erefs s e);
+  a_refs2 : forall x e, In x (erefs s e) -> kind s x = KEnum e /\ (x < nsig s)%nat;
+  a_refs_nd : forall e, NoDup (erefs s e);
   a_vals : forall e v, In v (evals s e) -> vpar s v = Some e /\ vidx s v <= emax s e /\ (v < nval s)%nat;
   a_size : forall x, 1 <= sz s x
 }.
@@ -63,6 +65,15 @@ Proof.
   - apply memb_In in E. split; [auto|intros [->|?]; assumption].
   - cbn [In]. intuition.
 Qed.
+
+Lemma ladd_NoDup : forall x l, NoDup l -> NoDup (ladd x l).
+Proof.
+  intros x l H. unfold ladd. destruct (memb x l) eqn:E; [exact H|].
+  constructor; [|exact H]. intros Hin. apply memb_In in Hin. congruence.
+Qed.
+
+Lemma lrem_NoDup : forall x l, NoDup l -> NoDup (lrem x l).
+Proof. intros x l H. unfold lrem. apply NoDup_filter. exact H. Qed.
 
 Lemma lrem_In : forall x l y, In y (lrem x l) <-> In y l /\ y <> x.
 Proof.
@@ -393,6 +404,8 @@ Proof.
   - intros u. rewrite E1, E4. apply a_unalloc0.
   - intros m. rewrite E15, E7. apply a_munalloc0.
   - intros x e. rewrite E1, E2, E10. apply a_refs0.
+  - intros x e. rewrite E1, E2, E10. apply a_refs3.
+  - intros e. rewrite E10. apply a_refs_nd0.
   - intros e v. rewrite E11, E12, E13, E14, E8. apply a_vals0.
   - intros x. rewrite Hsz. apply a_size0.
 Qed.
@@ -407,8 +420,9 @@ Qed.
 Definition link_ok (s : state) (x : nat) : Prop :=
   (forall m, In x (glay s m) -> pmux s x = None /\ pmsg s x = Some m /\ memb x (gsigs s m) = true)
   /\ (forall u g, In x (gget s u g) ->
-        pmux s x = Some u /\ exists gs, groups_of s u x = Some gs /\ In g gs)
-  /\ (forall u gs, pmux s x = Some u -> groups_of s u x = Some gs -> NoDup gs).
+        pmux s x = Some u /\ memb x (usigs s u) = true /\ exists gs, groups_of s u x = Some gs /\ In g gs)
+  /\ (forall u gs, pmux s x = Some u -> groups_of s u x = Some gs -> NoDup gs)
+  /\ (~ attached s x -> pmux s x = None /\ pmsg s x = None).
 
 (* every signal behind x in a group holding x is held by that group only (excludes D35) *)
 Definition single_followers (s : state) (x : nat) : Prop :=
@@ -471,6 +485,8 @@ Proof.
   - exact (a_unalloc s H).
   - intros m Hm. apply (a_munalloc s H). lia.
   - exact (a_refs s H).
+  - exact (a_refs2 s H).
+  - exact (a_refs_nd s H).
   - exact (a_vals s H).
   - exact (a_size s H).
 Qed.
@@ -484,12 +500,12 @@ Lemma inv_alloc_sig : forall s s' k,
   glsize s' = glsize s -> gbytes s' = gbytes s -> glay s' = glay s -> nmsg s' = nmsg s ->
   emax s' = emax s -> emin s' = emin s ->
   evals s' = evals s -> vpar s' = vpar s -> vidx s' = vidx s -> nval s' = nval s ->
-  (forall e x, In x (erefs s e) -> In x (erefs s' e)) ->
-  (forall e, k = KEnum e -> In (nsig s) (erefs s' e)) ->
+  (forall e x, In x (erefs s' e) <-> In x (erefs s e) \/ (x = nsig s /\ k = KEnum e)) ->
+  (forall e, NoDup (erefs s' e)) ->
   1 <= sz s' (nsig s) ->
   InvA s'.
 Proof.
-  intros s s' k H En Ek Er Eg Eg0 Els Egb Egl Enm Emx Emn Eev Evp Evi Env Hrefs Hk Hsize.
+  intros s s' k H En Ek Er Eg Eg0 Els Egb Egl Enm Emx Emn Eev Evp Evi Env Hrefs Hnd Hsize.
   assert (Hsz : forall x, x <> nsig s -> sz s' x = sz s x).
   { intros x Hx. unfold sz, esize. rewrite Ek, Emx, Emn. rewrite upd_other by exact Hx. reflexivity. }
   assert (Hlay : forall L, lay s' L = lay s L).
@@ -514,8 +530,12 @@ Proof.
   - intros u Hu. rewrite Eg by lia. apply (a_unalloc s H). lia.
   - intros m. rewrite Enm, Egl. apply (a_munalloc s H).
   - intros x e Hx. rewrite Ek. unfold upd. destruct (Nat.eqb_spec x (nsig s)) as [->|NE].
-    + intros ->. apply Hk. reflexivity.
-    + intros Hke. apply Hrefs. apply (a_refs s H); [lia|exact Hke].
+    + intros ->. apply Hrefs. right. split; reflexivity.
+    + intros Hke. apply Hrefs. left. apply (a_refs s H); [lia|exact Hke].
+  - intros x e Hx. apply Hrefs in Hx. rewrite Ek, En. destruct Hx as [Hx|[-> ->]].
+    + destruct (a_refs2 s H x e Hx) as [A B]. rewrite upd_other by lia. split; [exact A|lia].
+    + rewrite upd_same. split; [reflexivity|lia].
+  - exact Hnd.
   - intros e v. rewrite Eev, Evp, Evi, Env, Emx. apply (a_vals s H).
   - intros x. destruct (Nat.eq_dec x (nsig s)) as [->|NE]; [exact Hsize|rewrite Hsz by exact NE; apply (a_size s H)].
 Qed.
@@ -525,8 +545,8 @@ Proof.
   intros s n H. cbn [step]. destruct (Z.ltb_spec n 0); [exact H|]. destruct (Z.eqb_spec n 0); [exact H|]. cbn [fst].
   eapply (inv_alloc_sig s _ (KStd n) H); try reflexivity.
   - intros g. cbn. rewrite (a_unalloc s H) by lia. destruct g; reflexivity.
-  - intros e x Hx. exact Hx.
-  - intros e E. discriminate.
+  - intros e x. cbn. split; [intros Hx; left; exact Hx|intros [Hx|[_ C]]; [exact Hx|discriminate]].
+  - apply (a_refs_nd s H).
   - unfold sz. cbn. rewrite upd_same. lia.
 Qed.
 
@@ -538,9 +558,11 @@ Proof.
   intros s e H. cbn [step]. destruct (venum s e); [|exact H]. cbn [fst].
   eapply (inv_alloc_sig s _ (KEnum e) H); try reflexivity.
   - intros g. cbn. rewrite (a_unalloc s H) by lia. destruct g; reflexivity.
-  - intros e' x Hx. cbn. unfold upd. destruct (Nat.eqb_spec e' e) as [->|NE]; [|exact Hx].
-    apply ladd_In. right. exact Hx.
-  - intros e' E. inversion E; subst. cbn. rewrite upd_same. apply ladd_In. left. reflexivity.
+  - intros e' x. cbn. unfold upd. destruct (Nat.eqb_spec e' e) as [->|NE].
+    + rewrite ladd_In. split; [intros [->|Hx]; [right; split; reflexivity|left; exact Hx]|intros [Hx|[-> _]]; [right; exact Hx|left; reflexivity]].
+    + split; [intros Hx; left; exact Hx|intros [Hx|[_ C]]; [exact Hx|inversion C; congruence]].
+  - intros e'. cbn. unfold upd. destruct (Nat.eqb_spec e' e) as [->|NE]; [|apply (a_refs_nd s H)].
+    apply ladd_NoDup. apply (a_refs_nd s H).
   - unfold sz, esize. cbn. rewrite upd_same. apply esize_of_pos. apply (a_emax s H).
 Qed.
 
@@ -554,8 +576,8 @@ Proof.
   eapply (inv_alloc_sig s _ (KMux c g) H); try reflexivity.
   - intros u Hu. cbn. rewrite upd_other by exact Hu. reflexivity.
   - intros g'. cbn. rewrite upd_same. apply nth_repeat_nil.
-  - intros e x Hx. exact Hx.
-  - intros e E. discriminate.
+  - intros e x. cbn. split; [intros Hx; left; exact Hx|intros [Hx|[_ C]]; [exact Hx|discriminate]].
+  - apply (a_refs_nd s H).
   - unfold sz, selw. cbn. rewrite upd_same. pose proof (calc_size_pos (c - 1) ltac:(lia)). lia.
 Qed.
 
@@ -586,6 +608,8 @@ Proof.
   - intros u. rewrite En. apply Hun.
   - intros m. rewrite Enm. apply Hmun.
   - intros x e. rewrite En, Ek, Erf. apply (a_refs s H).
+  - intros x e. rewrite En, Ek, Erf. apply (a_refs2 s H).
+  - intros e. rewrite Erf. apply (a_refs_nd s H).
   - intros e v. rewrite Eev, Evp, Evi, Env, Emx. apply (a_vals s H).
   - intros x. rewrite Hsz. apply (a_size s H).
 Qed.
@@ -736,6 +760,8 @@ Proof.
   - exact (a_unalloc s H).
   - exact (a_munalloc s H).
   - exact (a_refs s H).
+  - exact (a_refs2 s H).
+  - exact (a_refs_nd s H).
   - exact (a_vals s H).
   - exact (a_size s H).
 Qed.
@@ -1259,17 +1285,136 @@ Proof.
     rewrite IH. reflexivity.
 Qed.
 
-Section MuxResize.
+Definition ok_all (s : state) (p len : nat -> Z) : Prop := forall L, ok p len 0 (lsz s L) (lay s L).
+
+Lemma set_rel_id : forall s, s = set_rel s (rel s).
+Proof. destruct s; reflexivity. Qed.
+
+(* The size of x changes by a, starting from positions p0 that are well-formed for the size
+   function lenG (lenG agrees with the state's sizes on the layouts holding x): what
+   signal.modifySize leaves behind. *)
+Definition modify_post (s : state) (x : nat) (a : Z) (p0 lenG : nat -> Z) (s1 : state) (r : vres) : Prop :=
+  exists p, s1 = set_rel s p
+    /\ (r = VOk -> ok_all s p (upd lenG x (sz s x + a)))
+    /\ (r <> VOk -> ok_all s p lenG)
+    /\ (forall y, p y <> p0 y -> exists L, In x (lay s L) /\ In y (lay s L)).
+
+Section Resize.
   Variable s : state.
-  Variable u x : nat.
+  Variable x : nat.
   Variable a : Z.
+  Variables p0 lenG : nat -> Z.
   Hypothesis HI : InvA s.
-  Hypothesis Ha : a <> 0.
+  Hypothesis Hcur : ok_all s p0 lenG.
+  Hypothesis Hagree : forall L, In x (lay s L) -> forall t, In t (lay s L) -> lenG t = sz s t.
   Hypothesis Hnew : 1 <= sz s x + a.
+
+  Let len' := upd lenG x (sz s x + a).
+
+  (* the layout L holding x, seen with the state's sizes *)
+  Lemma cur_ok_sz : forall L, In x (lay s L) -> ok p0 (sz s) 0 (lsz s L) (lay s L).
+  Proof.
+    intros L HL. eapply ok_ext; [|apply (Hcur L)]. intros t Ht. split; [reflexivity|]. symmetry. apply (Hagree L HL t Ht).
+  Qed.
+
+  Lemma to_len' : forall L p, In x (lay s L) -> ok p (upd (sz s) x (sz s x + a)) 0 (lsz s L) (lay s L) ->
+    ok p len' 0 (lsz s L) (lay s L).
+  Proof.
+    intros L p HL Hok. eapply ok_ext; [|exact Hok]. intros t Ht. split; [reflexivity|].
+    unfold len', upd. destruct (Nat.eqb_spec t x); [reflexivity|]. apply (Hagree L HL t Ht).
+  Qed.
+
+  Lemma post_same : forall r, (r = VOk -> a = 0 \/ ~ attached s x) -> modify_post s x a p0 lenG (set_rel s p0) r.
+  Proof.
+    intros r Hr. exists p0. split; [reflexivity|]. split; [|split; [intros _; exact Hcur|intros y C; congruence]].
+    intros E L. eapply ok_ext; [|apply (Hcur L)]. intros t Ht. split; [reflexivity|].
+    unfold upd. destruct (Nat.eqb_spec t x) as [->|]; [|reflexivity].
+    destruct (Hr E) as [->|Hfree]; [rewrite (Hagree L Ht x Ht); lia|]. exfalso. apply Hfree. exists L. exact Ht.
+  Qed.
+
+  (* one layout L0 holds x; only its elements move *)
+  Lemma post_one : forall L0 p,
+    In x (lay s L0) -> (forall L, In x (lay s L) -> L = L0) ->
+    ok p (upd (sz s) x (sz s x + a)) 0 (lsz s L0) (lay s L0) ->
+    (forall y, p y <> p0 y -> In y (lay s L0) /\ forall L, In y (lay s L) -> L = L0) ->
+    modify_post s x a p0 lenG (set_rel s p) VOk.
+  Proof.
+    intros L0 p H0 Honly Hok Hfr. exists p. split; [reflexivity|]. split; [|split; [intros C; congruence|]].
+    - intros _ L. destruct (classic_lid L L0) as [->|NE]; [apply to_len'; assumption|].
+      eapply ok_ext; [|apply (Hcur L)]. intros t Ht. split.
+      + destruct (Z.eq_dec (p t) (p0 t)) as [E|NE']; [exact E|]. destruct (Hfr t NE') as [_ U]. exfalso. apply NE. apply U. exact Ht.
+      + unfold upd. destruct (Nat.eqb_spec t x) as [->|]; [|reflexivity]. exfalso. apply NE. apply Honly. exact Ht.
+    - intros y Hy. destruct (Hfr y Hy) as [Hin _]. exists L0. split; assumption.
+  Qed.
+
+  (* --- message path --- *)
+  Lemma msg_modify_post : forall m, (forall L, In x (lay s L) -> L = LM m) ->
+    (In x (glay s m) -> memb x (gsigs s m) = true) ->
+    modify_post s x a p0 lenG (fst (msg_modify_size (set_rel s p0) m x a)) (snd (msg_modify_size (set_rel s p0) m x a))
+    /\ (a < 0 -> In x (glay s m) -> snd (msg_modify_size (set_rel s p0) m x a) = VOk).
+  Proof.
+    intros m Honly Hreg. unfold msg_modify_size.
+    change (sz (set_rel s p0)) with (sz s). change (rel (set_rel s p0)) with p0.
+    change (gsigs (set_rel s p0) m) with (gsigs s m). change (glsize (set_rel s p0) m) with (glsize s m).
+    change (glay (set_rel s p0) m) with (glay s m).
+    destruct (Z.eqb_spec a 0) as [E0|Ha]; [split; [apply post_same; intros _; left; exact E0|intros; lia]|].
+    destruct (in_dec Nat.eq_dec x (glay s m)) as [Hin|Hn].
+    - rewrite (Hreg Hin). cbn [negb].
+      pose proof (cur_ok_sz (LM m) Hin) as Hok. cbn [lay lsz] in Hok.
+      destruct (followers (glay s m) x) as [fs|] eqn:Hf; [|apply followers_None in Hf; contradiction].
+      assert (Hfs : forall y, In y fs -> In y (lay s (LM m)) /\ forall L, In y (lay s L) -> L = LM m).
+      { intros y Hy. destruct (followers_In _ _ _ Hf) as [_ B]. split; [apply B; exact Hy|].
+        intros L HL. eapply msg_only; [exact HI|apply B; exact Hy|exact HL]. }
+      destruct (Z.ltb_spec 0 a) as [Hpos|Hneg].
+      + split; [|intros; lia].
+        destruct (do_grow (sz s) p0 (glsize s m) (glay s m) x a) as [e p] eqn:E.
+        assert (Ee : e = fst (do_grow (sz s) p0 (glsize s m) (glay s m) x a)) by (rewrite E; reflexivity).
+        assert (Ep : p = snd (do_grow (sz s) p0 (glsize s m) (glay s m) x a)) by (rewrite E; reflexivity).
+        destruct e as [c|]; cbn [fst snd]; [apply post_same; discriminate|].
+        symmetry in Ee. apply do_grow_ok_iff in Ee; [|exact Ha].
+        replace (set_rel (set_rel s p0) p) with (set_rel s p) by reflexivity.
+        apply (post_one (LM m)); [exact Hin|exact Honly|rewrite Ep; apply ok_grow; assumption|].
+        intros y Hy. rewrite Ep in Hy. destruct (in_dec Nat.eq_dec y fs) as [Hyf|Hyn]; [apply Hfs; exact Hyf|].
+        exfalso. apply Hy. apply do_grow_frame. intros fs' E'. assert (fs' = fs) by congruence. subst fs'. exact Hyn.
+      + assert (Hlt : a < 0) by lia. unfold do_shrink. destruct (Z.eqb_spec (- a) 0); [lia|].
+        assert (Ev : verify_shrink (sz s) x (- a) = None).
+        { unfold verify_shrink. destruct (Z.ltb_spec (- a) 0); [lia|].
+          destruct (Z.ltb_spec (sz s x - - a) 0); [lia|]. destruct (Z.eqb_spec (sz s x - - a) 0); [lia|reflexivity]. }
+        rewrite Ev. cbn [fst snd]. split; [|reflexivity].
+        replace (set_rel (set_rel s p0) (shrink_loop p0 (glay s m) x (- a) false))
+          with (set_rel s (shrink_loop p0 (glay s m) x (- a) false)) by reflexivity.
+        apply (post_one (LM m)); [exact Hin|exact Honly| |].
+        * replace (sz s x + a) with (sz s x - - a) by lia. apply ok_shrink; try assumption; lia.
+        * intros y Hy. destruct (in_dec Nat.eq_dec y fs) as [Hyf|Hyn]; [apply Hfs; exact Hyf|].
+          exfalso. apply Hy. apply shrink_loop_false_frame. intros fs' E'. assert (fs' = fs) by congruence. subst fs'. exact Hyn.
+    - (* x is not placed in the message: nothing moves *)
+      assert (Hfree : ~ attached s x).
+      { intros [L HL]. pose proof (Honly L HL). subst L. contradiction. }
+      assert (Hnf : followers (glay s m) x = None) by (apply followers_None; exact Hn).
+      split; [|intros; contradiction].
+      destruct (negb (memb x (gsigs s m))); [apply post_same; discriminate|].
+      destruct (Z.ltb_spec 0 a) as [Hpos|Hneg].
+      + unfold do_grow. destruct (Z.eqb_spec a 0); [lia|].
+        destruct (verify_grow (sz s) p0 (glsize s m) (glay s m) x a); cbn [fst snd]; [apply post_same; discriminate|].
+        rewrite Hnf. cbn [fst snd]. apply post_same. intros _. right. exact Hfree.
+      + unfold do_shrink. destruct (Z.eqb_spec (- a) 0); [lia|].
+        destruct (verify_shrink (sz s) x (- a)); cbn [fst snd]; [apply post_same; discriminate|].
+        destruct (post_same VOk (fun _ => or_intror Hfree)) as [p [Ep R]].
+        assert (p = p0) by (inversion Ep; reflexivity). subst p.
+        exists (shrink_loop p0 (glay s m) x (- a) false). split; [reflexivity|].
+        assert (Esh : forall y, shrink_loop p0 (glay s m) x (- a) false y = p0 y).
+        { intros y. apply shrink_loop_false_frame. intros fs E'. congruence. }
+        destruct R as (R1 & R2 & R3). split; [|split].
+        * intros E L. eapply ok_ext; [|apply (R1 E L)]. intros t _. split; [apply Esh|reflexivity].
+        * intros C. congruence.
+        * intros y Hy. rewrite Esh in Hy. congruence.
+  Qed.
+
+  (* --- multiplexer path --- *)
+  Variable u : nat.
+  Hypothesis Ha : a <> 0.
   Hypothesis Hsingle : single_followers s x.
   Hypothesis Hshrink : a < 0 -> verify_shrink (sz s) x (- a) = None.
-
-  Let len' := upd (sz s) x (sz s x + a).
   Let gsz := mux_gsize s u.
 
   Definition mover (y : nat) : Prop := exists g fs, followers (gget s u g) x = Some fs /\ In y fs.
@@ -1285,19 +1430,20 @@ Section MuxResize.
 
   Definition Mixed (p : nat -> Z) (done : list nat) : Prop :=
     (forall g, In g done -> In x (gget s u g) -> ok p len' 0 gsz (gget s u g))
-    /\ (forall L, ~ (exists g, L = LG u g /\ In g done /\ In x (gget s u g)) -> ok p (sz s) 0 (lsz s L) (lay s L))
-    /\ (forall y, ~ mover y -> p y = rel s y).
+    /\ (forall L, ~ (exists g, L = LG u g /\ In g done /\ In x (gget s u g)) -> ok p lenG 0 (lsz s L) (lay s L))
+    /\ (forall y, p y <> p0 y -> mover y).
 
   Lemma x_not_mover : ~ mover x.
   Proof.
-    intros [g [fs [Hf Hx]]]. pose proof (a_ok s HI (LG u g)) as Hok. cbn [lay lsz] in Hok.
+    intros [g [fs [Hf Hx]]]. destruct (followers_In _ _ _ Hf) as [Hin _].
+    pose proof (cur_ok_sz (LG u g) Hin) as Hok. cbn [lay lsz] in Hok.
     destruct (ok_split_at _ _ _ _ _ _ _ Hok Hf) as [_ Hn]. contradiction.
   Qed.
 
-  Lemma mixed_init : Mixed (rel s) [].
+  Lemma mixed_init : Mixed p0 [].
   Proof.
-    split; [intros g []|]. split; [|reflexivity].
-    intros L _. apply (a_ok s HI L).
+    split; [intros g []|]. split; [|intros y C; congruence].
+    intros L _. apply (Hcur L).
   Qed.
 
   (* one group *)
@@ -1307,16 +1453,17 @@ Section MuxResize.
     (e = None -> Mixed p' (g :: done)) /\ (e <> None -> 0 < a).
   Proof.
     intros p done g (M1 & M2 & M3) Hnd.
-    assert (Hokg : ok p (sz s) 0 gsz (gget s u g)).
-    { apply (M2 (LG u g)). intros [g' [E [Hd _]]]. inversion E; subst. contradiction. }
-    assert (Hpx : p x = rel s x) by (apply M3; apply x_not_mover).
     destruct (in_dec Nat.eq_dec x (gget s u g)) as [Hin|Hn].
     - (* x is in the group *)
+      assert (Hokg : ok p (sz s) 0 gsz (gget s u g)).
+      { eapply ok_ext; [|apply (M2 (LG u g))].
+        - intros t Ht. split; [reflexivity|]. symmetry. apply (Hagree (LG u g) Hin t Ht).
+        - intros [g' [E [Hd _]]]. inversion E; subst. contradiction. }
       destruct (followers (gget s u g) x) as [fs|] eqn:Hf; [|apply followers_None in Hf; contradiction].
       assert (Hframe_ok : forall p', (forall y, ~ In y fs -> p' y = p y) ->
-                 ok p' len' 0 gsz (gget s u g) -> Mixed p' (g :: done)).
+                 ok p' (upd (sz s) x (sz s x + a)) 0 gsz (gget s u g) -> Mixed p' (g :: done)).
       { intros p' Hfr Hok'. split; [|split].
-        - intros g' [<-|Hd] Hx'; [exact Hok'|].
+        - intros g' [<-|Hd] Hx'; [apply (to_len' (LG u g) p' Hin Hok')|].
           eapply ok_ext; [|apply (M1 g' Hd Hx')]. intros t Ht. split; [|reflexivity]. apply Hfr.
           intros Hfs. pose proof (mover_only g fs t Hf Hfs (LG u g') Ht) as E. inversion E; subst. contradiction.
         - intros L HL. assert (HL' : ~ (exists g', L = LG u g' /\ In g' done /\ In x (gget s u g'))).
@@ -1324,7 +1471,8 @@ Section MuxResize.
           eapply ok_ext; [|apply (M2 L HL')]. intros t Ht. split; [|reflexivity]. apply Hfr.
           intros Hfs. pose proof (mover_only g fs t Hf Hfs L Ht) as E. subst L.
           apply HL. exists g. split; [reflexivity|split; [left; reflexivity|exact Hin]].
-        - intros y Hy. rewrite Hfr; [apply M3; exact Hy|]. intros Hfs. apply Hy. exists g, fs. split; assumption. }
+        - intros y Hy. destruct (in_dec Nat.eq_dec y fs) as [Hyf|Hyn]; [exists g, fs; split; assumption|].
+          apply M3. rewrite <- (Hfr y Hyn). exact Hy. }
       destruct (Z.ltb_spec 0 a) as [Hpos|Hneg].
       + (* grow *)
         destruct (do_grow (sz s) p gsz (gget s u g) x a) as [e p'] eqn:E.
@@ -1332,15 +1480,15 @@ Section MuxResize.
         assert (Ep : p' = snd (do_grow (sz s) p gsz (gget s u g) x a)) by (rewrite E; reflexivity).
         split; [|intros _; exact Hpos]. intros ->. symmetry in Ee. apply do_grow_ok_iff in Ee; [|exact Ha].
         apply Hframe_ok.
-        * intros y Hy. rewrite Ep. apply do_grow_frame. intros fs' Hfs'. rewrite Hf in Hfs'. inversion Hfs'; subst. exact Hy.
-        * rewrite Ep. unfold len'. apply ok_grow; assumption.
+        * intros y Hy. rewrite Ep. apply do_grow_frame. intros fs' Hfs'. assert (fs' = fs) by congruence. subst fs'. exact Hy.
+        * rewrite Ep. apply ok_grow; assumption.
       + (* shrink *)
         assert (Hlt : a < 0) by lia. specialize (Hshrink Hlt).
         unfold do_shrink. destruct (Z.eqb_spec (- a) 0); [lia|]. rewrite Hshrink.
         split; [|intros C; congruence]. intros _.
         apply Hframe_ok.
-        * intros y Hy. apply shrink_loop_false_frame. intros fs' Hfs'. rewrite Hf in Hfs'. inversion Hfs'; subst. exact Hy.
-        * unfold len'. replace (sz s x + a) with (sz s x - - a) by lia. apply ok_shrink; try assumption; lia.
+        * intros y Hy. apply shrink_loop_false_frame. intros fs' Hfs'. assert (fs' = fs) by congruence. subst fs'. exact Hy.
+        * replace (sz s x + a) with (sz s x - - a) by lia. apply ok_shrink; try assumption; lia.
     - (* x is not in the group: nothing moves *)
       assert (Hsame : Mixed p (g :: done)).
       { split; [|split; [|exact M3]].
@@ -1362,7 +1510,7 @@ Section MuxResize.
         destruct Hsame as (S1 & S2 & S3). split; [|split].
         * intros g' Hd Hx'. eapply ok_ext; [|apply (S1 g' Hd Hx')]. intros t _. split; [apply E|reflexivity].
         * intros L HL. eapply ok_ext; [|apply (S2 L HL)]. intros t _. split; [apply E|reflexivity].
-        * intros y Hy. rewrite E. apply S3. exact Hy.
+        * intros y Hy. rewrite E in Hy. apply S3. exact Hy.
   Qed.
 
   Lemma mixed_loop : forall gs p done,
@@ -1395,143 +1543,66 @@ Section MuxResize.
     left. exists g. auto.
   Qed.
 
-  (* a Mixed state gives the invariant with the old sizes when the signal grows *)
-  Lemma mixed_old : forall p done, 0 < a -> Mixed p done -> forall L, ok p (sz s) 0 (lsz s L) (lay s L).
+  (* a Mixed state is well-formed for the old sizes when the signal grows *)
+  Lemma mixed_old : forall p done, 0 < a -> Mixed p done -> ok_all s p lenG.
   Proof.
     intros p done Hpos (M1 & M2 & M3) L.
     destruct (classic_mixed L done) as [[g [-> [Hd Hx]]]|HL]; [|apply M2; exact HL].
-    eapply ok_len_le; [|apply (M1 g Hd Hx)]. intros t Ht. unfold len'. unfold upd.
-    pose proof (a_size s HI t). destruct (Nat.eqb_spec t x) as [->|NE]; lia.
+    pose proof (M1 g Hd Hx) as Hok.
+    eapply ok_len_le; [|exact Hok]. intros t Ht. unfold len', upd.
+    destruct (Nat.eqb_spec t x) as [->|NE].
+    - rewrite (Hagree (LG u g) Hx x Hx). pose proof (a_size s HI x). lia.
+    - pose proof (ok_In _ _ _ _ _ _ Hok Ht) as B. unfold len' in B. rewrite upd_other in B by exact NE. lia.
   Qed.
-End MuxResize.
 
-Definition ok_all (s : state) (p len : nat -> Z) : Prop := forall L, ok p len 0 (lsz s L) (lay s L).
+  Lemma mixed_movers : forall p done y, Mixed p done -> p y <> p0 y -> exists L, In x (lay s L) /\ In y (lay s L).
+  Proof.
+    intros p done y (_ & _ & M3) Hy. destruct (M3 y Hy) as [g [fs [Hf Hin]]].
+    destruct (followers_In _ _ _ Hf) as [Hx B]. exists (LG u g). split; [exact Hx|apply B; exact Hin].
+  Qed.
+End Resize.
 
-Lemma ok_all_one : forall s L0 p len',
-  InvA s -> ok p len' 0 (lsz s L0) (lay s L0) ->
-  (forall y, p y <> rel s y -> forall L, In y (lay s L) -> L = L0) ->
-  (forall y, len' y <> sz s y -> forall L, In y (lay s L) -> L = L0) ->
-  ok_all s p len'.
+Lemma verify_shrink_ok : forall len x a, 0 < a -> 1 <= len x - a -> verify_shrink len x a = None.
 Proof.
-  intros s L0 p len' H Hok Hp Hl L. destruct (classic_lid L L0) as [->|NE]; [exact Hok|].
-  eapply ok_ext; [|apply (a_ok s H L)]. intros t Ht. split.
-  - destruct (Z.eq_dec (p t) (rel s t)) as [E|NE']; [exact E|]. exfalso. apply NE. eapply Hp; eauto.
-  - destruct (Z.eq_dec (len' t) (sz s t)) as [E|NE']; [exact E|]. exfalso. apply NE. eapply Hl; eauto.
+  intros len x a Ha Hn. unfold verify_shrink. destruct (Z.ltb_spec a 0); [lia|].
+  destruct (Z.ltb_spec (len x - a) 0); [lia|]. destruct (Z.eqb_spec (len x - a) 0); [lia|reflexivity].
 Qed.
 
-Lemma ok_all_unattached : forall s x n, InvA s -> ~ attached s x -> ok_all s (rel s) (upd (sz s) x n).
+Lemma verify_groups_shrink : forall s u x a gs, a < 0 -> 1 <= sz s x + a -> verify_groups s u x a gs = None.
 Proof.
-  intros s x n H Hfree L. eapply ok_ext; [|apply (a_ok s H L)]. intros t Ht. split; [reflexivity|].
-  apply upd_other. intros ->. apply Hfree. exists L. exact Ht.
+  intros s u x a gs Hneg Hnew. induction gs as [|g r IH]; cbn [verify_groups]; [reflexivity|].
+  destruct (Z.ltb_spec 0 a); [lia|]. rewrite verify_shrink_ok by lia. exact IH.
 Qed.
 
-Lemma set_rel_id : forall s, s = set_rel s (rel s).
-Proof. destruct s; reflexivity. Qed.
-
-(* the size of x changes by a: what sig_modify_size leaves behind *)
-Definition modify_post (s : state) (x : nat) (a : Z) (s1 : state) (r : vres) : Prop :=
-  exists p, s1 = set_rel s p
-    /\ (r = VOk -> ok_all s p (upd (sz s) x (sz s x + a)))
-    /\ (r <> VOk -> ok_all s p (sz s)).
-
-Lemma modify_post_same : forall s x a r, InvA s -> (r = VOk -> a = 0 \/ ~ attached s x) -> modify_post s x a s r.
-Proof.
-  intros s x a r H Hr. exists (rel s). split; [apply set_rel_id|]. split.
-  - intros E. destruct (Hr E) as [->|Hfree]; [|apply ok_all_unattached; assumption].
-    intros L. eapply ok_ext; [|apply (a_ok s H L)]. intros t _. split; [reflexivity|].
-    unfold upd. destruct (Nat.eqb_spec t x) as [->|]; [lia|reflexivity].
-  - intros _. exact (a_ok s H).
-Qed.
-
-Lemma modify_post_same' : forall s x a r, InvA s -> (r = VOk -> a = 0 \/ ~ attached s x) -> modify_post s x a (set_rel s (rel s)) r.
-Proof.
-  intros s x a r H Hr. destruct (modify_post_same s x a r H Hr) as [p [E R]].
-  exists (rel s). split; [reflexivity|]. rewrite (set_rel_id s) in E at 1.
-  assert (p = rel s) by (inversion E; reflexivity). subst p. exact R.
-Qed.
-
-Lemma msg_modify_post : forall s m x a, InvA s -> 1 <= sz s x + a ->
-  (forall L, In x (lay s L) -> L = LM m) ->
-  modify_post s x a (fst (msg_modify_size s m x a)) (snd (msg_modify_size s m x a)).
-Proof.
-  intros s m x a H Hnew Honly. unfold msg_modify_size.
-  destruct (Z.eqb_spec a 0) as [->|Ha]; [apply modify_post_same; [exact H|intros _; left; reflexivity]|].
-  destruct (negb (memb x (gsigs s m))); [apply modify_post_same; [exact H|discriminate]|].
-  destruct (in_dec Nat.eq_dec x (glay s m)) as [Hin|Hn].
-  - pose proof (a_ok s H (LM m)) as Hok. cbn [lay lsz] in Hok.
-    destruct (Z.ltb_spec 0 a) as [Hpos|Hneg].
-    + destruct (do_grow (sz s) (rel s) (glsize s m) (glay s m) x a) as [e p] eqn:E.
-      assert (Ee : e = fst (do_grow (sz s) (rel s) (glsize s m) (glay s m) x a)) by (rewrite E; reflexivity).
-      assert (Ep : p = snd (do_grow (sz s) (rel s) (glsize s m) (glay s m) x a)) by (rewrite E; reflexivity).
-      destruct e as [c|]; cbn [fst snd]; [apply modify_post_same; [exact H|discriminate]|].
-      symmetry in Ee. apply do_grow_ok_iff in Ee; [|exact Ha].
-      exists p. split; [reflexivity|]. split; [intros _|intros C; congruence].
-      apply (ok_all_one s (LM m)); [exact H|rewrite Ep; apply ok_grow; assumption| |].
-      * intros y Hy L HL. rewrite Ep in Hy.
-        destruct (followers (glay s m) x) as [fs|] eqn:Hf; [|apply followers_None in Hf; contradiction].
-        destruct (in_dec Nat.eq_dec y fs) as [Hyf|Hyn].
-        -- destruct (followers_In _ _ _ Hf) as [_ B]. eapply msg_only; [exact H|apply B; exact Hyf|exact HL].
-        -- exfalso. apply Hy. apply do_grow_frame. intros fs' E'. assert (fs' = fs) by congruence. subst fs'. exact Hyn.
-      * intros y Hy L HL. destruct (Nat.eq_dec y x) as [E0|NE0]; [subst y; apply Honly; exact HL|].
-        exfalso. apply Hy. apply upd_other. exact NE0.
-    + assert (Hlt : a < 0) by lia. unfold do_shrink. destruct (Z.eqb_spec (- a) 0); [lia|].
-      destruct (verify_shrink (sz s) x (- a)) eqn:Ev; cbn [fst snd]; [apply modify_post_same; [exact H|discriminate]|].
-      exists (shrink_loop (rel s) (glay s m) x (- a) false). split; [reflexivity|]. split; [intros _|intros C; congruence].
-      apply (ok_all_one s (LM m)); [exact H| | |].
-      * replace (sz s x + a) with (sz s x - - a) by lia. apply ok_shrink; try assumption; lia.
-      * intros y Hy L HL.
-        destruct (followers (glay s m) x) as [fs|] eqn:Hf; [|apply followers_None in Hf; contradiction].
-        destruct (in_dec Nat.eq_dec y fs) as [Hyf|Hyn].
-        -- destruct (followers_In _ _ _ Hf) as [_ B]. eapply msg_only; [exact H|apply B; exact Hyf|exact HL].
-        -- exfalso. apply Hy. apply shrink_loop_false_frame. intros fs' E'. assert (fs' = fs) by congruence. subst fs'. exact Hyn.
-      * intros y Hy L HL. destruct (Nat.eq_dec y x) as [E0|NE0]; [subst y; apply Honly; exact HL|].
-        exfalso. apply Hy. apply upd_other. exact NE0.
-  - (* x is registered but not placed: nothing moves *)
-    assert (Hfree : ~ attached s x).
-    { intros [L HL]. pose proof (Honly L HL). subst L. contradiction. }
-    assert (Hnf : followers (glay s m) x = None) by (apply followers_None; exact Hn).
-    destruct (Z.ltb_spec 0 a) as [Hpos|Hneg].
-    + unfold do_grow. destruct (Z.eqb_spec a 0); [lia|].
-      destruct (verify_grow (sz s) (rel s) (glsize s m) (glay s m) x a); cbn [fst snd];
-        [apply modify_post_same; [exact H|discriminate]|].
-      rewrite Hnf. cbn [fst snd]. apply modify_post_same'; [exact H|intros _; right; exact Hfree].
-    + unfold do_shrink. destruct (Z.eqb_spec (- a) 0); [lia|].
-      destruct (verify_shrink (sz s) x (- a)); cbn [fst snd]; [apply modify_post_same; [exact H|discriminate]|].
-      exists (shrink_loop (rel s) (glay s m) x (- a) false). split; [reflexivity|]. split; [intros _|intros C; congruence].
-      intros L. eapply ok_ext; [|apply (ok_all_unattached s x (sz s x + a) H Hfree L)].
-      intros t _. split; [|reflexivity]. apply shrink_loop_false_frame. intros fs E'. congruence.
-Qed.
-
-Lemma verify_groups_head : forall s u x a g r, verify_groups s u x a (g :: r) = None -> a < 0 ->
-  verify_shrink (sz s) x (- a) = None.
-Proof.
-  intros s u x a g r Hv Hneg. cbn [verify_groups] in Hv. destruct (Z.ltb_spec 0 a); [lia|].
-  destruct (verify_shrink (sz s) x (- a)); [discriminate|reflexivity].
-Qed.
-
-Lemma mux_modify_post : forall s u x a, InvA s -> 1 <= sz s x + a -> single_followers s x ->
+Lemma mux_modify_post : forall s x a p0 lenG u, InvA s -> ok_all s p0 lenG ->
+  (forall L, In x (lay s L) -> forall t, In t (lay s L) -> lenG t = sz s t) ->
+  1 <= sz s x + a -> single_followers s x ->
   (forall L, In x (lay s L) -> exists g, L = LG u g /\ forall gs, groups_of s u x = Some gs -> In g gs) ->
   (forall gs, groups_of s u x = Some gs -> NoDup gs) ->
-  modify_post s x a (fst (mux_modify_size s u x a)) (snd (mux_modify_size s u x a)).
+  modify_post s x a p0 lenG (fst (mux_modify_size (set_rel s p0) u x a)) (snd (mux_modify_size (set_rel s p0) u x a))
+  /\ (a < 0 -> memb x (usigs s u) = true -> groups_of s u x <> None -> snd (mux_modify_size (set_rel s p0) u x a) = VOk).
 Proof.
-  intros s u x a H Hnew Hsingle Hcont Hnd. unfold mux_modify_size.
-  destruct (Z.eqb_spec a 0) as [->|Ha]; [apply modify_post_same; [exact H|intros _; left; reflexivity]|].
-  destruct (negb (memb x (usigs s u))); [apply modify_post_same; [exact H|discriminate]|].
-  destruct (mux_verify_size s u x a) eqn:Ev; try (apply modify_post_same; [exact H|discriminate]).
-  destruct (groups_of s u x) as [gs|] eqn:Eg; [|apply modify_post_same; [exact H|discriminate]].
+  intros s x a p0 lenG u H Hcur Hagree Hnew Hsingle Hcont Hnd. unfold mux_modify_size, mux_verify_size.
+  change (usigs (set_rel s p0) u) with (usigs s u). change (groups_of (set_rel s p0) u x) with (groups_of s u x).
+  destruct (Z.eqb_spec a 0) as [E0|Ha]; [split; [apply post_same; try assumption; intros _; left; exact E0|intros; lia]|].
+  destruct (memb x (usigs s u)) eqn:Emem; cbn [negb]; [|split; [apply post_same; try assumption; discriminate|intros; discriminate]].
+  destruct (groups_of s u x) as [gs|] eqn:Eg; [|split; [apply post_same; try assumption; discriminate|intros; congruence]].
+  assert (Evg : a < 0 -> verify_groups (set_rel s p0) u x a gs = None).
+  { intros Hneg. apply verify_groups_shrink; [exact Hneg|exact Hnew]. }
+  destruct (verify_groups (set_rel s p0) u x a gs) eqn:Ev.
+  { split; [apply post_same; try assumption; discriminate|]. intros Hneg _ _. specialize (Evg Hneg). discriminate. }
   rewrite modify_groups_pos. cbn [fst snd].
-  destruct gs as [|g0 gr].
-  - cbn [mg_pos fst snd]. apply modify_post_same'; [exact H|]. intros _. right.
-    intros [L HL]. destruct (Hcont L HL) as [g [_ Hg]]. destruct (Hg [] eq_refl).
-  - assert (Hshrink : a < 0 -> verify_shrink (sz s) x (- a) = None).
-    { intros Hneg. unfold mux_verify_size in Ev. destruct (Z.eqb_spec a 0); [lia|].
-      destruct (negb (memb x (usigs s u))); [discriminate|]. rewrite Eg in Ev.
-      destruct (verify_groups s u x a (g0 :: gr)) eqn:Evg; [discriminate|].
-      eapply verify_groups_head; eauto. }
-    pose proof (mixed_loop s u x a H Ha Hnew Hsingle Hshrink (g0 :: gr) (rel s) [] (mixed_init s u x a H)
-                  (Hnd _ eq_refl) (fun g _ Hin => Hin)) as R.
-    destruct (mg_pos (sz s) (mux_gsize s u) (gget s u) x a (g0 :: gr) (rel s)) as [p' e]. cbn [fst snd].
-    destruct R as [R1 R2]. exists p'. split; [reflexivity|]. split.
+  change (sz (set_rel s p0)) with (sz s). change (mux_gsize (set_rel s p0) u) with (mux_gsize s u).
+  change (gget (set_rel s p0) u) with (gget s u). change (rel (set_rel s p0)) with p0.
+  assert (Hshrink : a < 0 -> verify_shrink (sz s) x (- a) = None).
+  { intros Hneg. apply verify_shrink_ok; lia. }
+  pose proof (mixed_loop s x a p0 lenG H Hagree Hnew u Ha Hsingle Hshrink gs p0 []
+                (mixed_init s x a p0 lenG Hcur u) (Hnd _ eq_refl) (fun g _ Hin => Hin)) as R.
+  destruct (mg_pos (sz s) (mux_gsize s u) (gget s u) x a gs p0) as [p' e]. cbn [fst snd].
+  destruct R as [R1 R2].
+  replace (set_rel (set_rel s p0) p') with (set_rel s p') by reflexivity.
+  split.
+  - exists p'. split; [reflexivity|]. split; [|split].
     + intros E. destruct e; [discriminate|]. specialize (R1 eq_refl). destruct R1 as (M1 & M2 & M3).
       intros L. destruct (in_dec Nat.eq_dec x (lay s L)) as [Hin|Hn].
       * destruct (Hcont L Hin) as [g [-> Hg]]. apply (M1 g); [|exact Hin].
@@ -1540,81 +1611,132 @@ Proof.
         -- intros t Ht. split; [reflexivity|]. apply upd_other. intros ->. contradiction.
         -- intros [g [-> [_ Hx]]]. apply Hn. exact Hx.
     + intros E. destruct e as [c|]; [|congruence]. destruct (R2 ltac:(discriminate)) as [Hpos [done' HM]].
-      intros L. eapply mixed_old with (p := p') (done := done'); eassumption.
+      eapply mixed_old with (p := p') (done := done'); eassumption.
+    + intros y Hy. destruct e as [c|].
+      * destruct (R2 ltac:(discriminate)) as [_ [done' HM]]. eapply mixed_movers; eassumption.
+      * eapply mixed_movers; [apply (R1 eq_refl)|exact Hy].
+  - intros Hneg _ _. destruct e as [c|]; [|reflexivity]. destruct (R2 ltac:(discriminate)) as [Hpos _]. lia.
 Qed.
 
+Lemma vres_ok_dec : forall r : vres, r = VOk \/ r <> VOk.
+Proof. destruct r; [left; reflexivity|right; discriminate|right; discriminate]. Qed.
+
 (* signal.modifySize under the link hypothesis *)
-Lemma sig_modify_post : forall s x a, InvA s -> 1 <= sz s x + a -> resize_ok s x ->
-  modify_post s x a (fst (sig_modify_size s x a)) (snd (sig_modify_size s x a)).
+Lemma sig_modify_post : forall s x a p0 lenG, InvA s -> ok_all s p0 lenG ->
+  (forall L, In x (lay s L) -> forall t, In t (lay s L) -> lenG t = sz s t) ->
+  1 <= sz s x + a -> resize_ok s x ->
+  modify_post s x a p0 lenG (fst (sig_modify_size (set_rel s p0) x a)) (snd (sig_modify_size (set_rel s p0) x a))
+  /\ (a < 0 -> snd (sig_modify_size (set_rel s p0) x a) = VOk).
 Proof.
-  intros s x a H Hnew [(Ltop & Lgrp & Lnd) Hsingle]. unfold sig_modify_size.
+  intros s x a p0 lenG H Hcur Hagree Hnew [(Ltop & Lgrp & Lnd & Lfree) Hsingle]. unfold sig_modify_size.
+  change (pmux (set_rel s p0) x) with (pmux s x). change (pmsg (set_rel s p0) x) with (pmsg s x).
   destruct (pmux s x) as [u|] eqn:Epu.
-  - apply mux_modify_post; try assumption.
+  - destruct (mux_modify_post s x a p0 lenG u H Hcur Hagree Hnew Hsingle) as [A B].
     + intros L HL. destruct L as [m|u' g].
       * destruct (Ltop m HL) as [C _]. congruence.
-      * destruct (Lgrp u' g HL) as (P & gs & Eg & Hg). assert (u' = u) by congruence. subst u'.
+      * destruct (Lgrp u' g HL) as (P & _ & gs & Eg & Hg). assert (u' = u) by congruence. subst u'.
         exists g. split; [reflexivity|]. intros gs' Eg'. assert (gs' = gs) by congruence. subst. exact Hg.
     + intros gs Eg. eapply Lnd; eauto.
+    + split; [exact A|]. intros Hneg.
+      destruct (vres_ok_dec (snd (mux_modify_size (set_rel s p0) u x a))) as [E|NE]; [exact E|]. exfalso.
+      assert (NA : ~ attached s x).
+      { intros [L0 HL0]. destruct L0 as [m0|u0 g0]; [destruct (Ltop m0 HL0) as [C _]; congruence|].
+        destruct (Lgrp u0 g0 HL0) as (P0 & Mem0 & gs0 & Eg0 & _). assert (u0 = u) by congruence. subst u0.
+        apply NE. apply B; [exact Hneg|exact Mem0|congruence]. }
+      destruct (Lfree NA) as [C _]. congruence.
   - destruct (pmsg s x) as [m|] eqn:Epm.
-    + apply msg_modify_post; try assumption. intros L HL. destruct L as [m'|u g].
-      * destruct (Ltop m' HL) as (_ & P & _). congruence.
-      * destruct (Lgrp u g HL) as (P & _). congruence.
-    + apply modify_post_same; [exact H|]. intros _. right. intros [L HL]. destruct L as [m|u g].
+    + destruct (msg_modify_post s x a p0 lenG H Hcur Hagree Hnew m) as [A B].
+      * intros L HL. destruct L as [m'|u g].
+        -- destruct (Ltop m' HL) as (_ & P & _). congruence.
+        -- destruct (Lgrp u g HL) as (P & _). congruence.
+      * intros Hin. apply (Ltop m Hin).
+      * split; [exact A|]. intros Hneg.
+        destruct (in_dec Nat.eq_dec x (glay s m)) as [Hin|Hn]; [apply B; assumption|].
+        (* registered in m but not placed: by the link hypothesis x is then unattached, so m is not its parent *)
+        exfalso. assert (NA : ~ attached s x).
+        { intros [L HL]. destruct L as [m'|u g].
+          - destruct (Ltop m' HL) as (_ & P & _). assert (m' = m) by congruence. subst. contradiction.
+          - destruct (Lgrp u g HL) as (P & _). congruence. }
+        destruct (Lfree NA) as [_ C]. congruence.
+    + split; [|reflexivity]. cbn [fst snd]. apply post_same; try assumption. intros _. right. intros [L HL]. destruct L as [m|u g].
       * destruct (Ltop m HL) as (_ & P & _). congruence.
       * destruct (Lgrp u g HL) as (P & _). congruence.
 Qed.
 
+(* a state whose layouts (lists) are those of s, with positions p and sizes len' *)
 Lemma InvA_resized : forall s s' len',
   InvA s ->
   nsig s' = nsig s -> glsize s' = glsize s -> gbytes s' = gbytes s -> nmsg s' = nmsg s ->
   glay s' = glay s -> ugroups s' = ugroups s ->
-  emax s' = emax s -> evals s' = evals s -> vpar s' = vpar s -> vidx s' = vidx s -> nval s' = nval s ->
-  (forall y, sz s' y = len' y) -> (forall u, mux_gsize s' u = mux_gsize s u) ->
-  ok_all s (rel s') len' -> (forall y, 1 <= len' y) ->
+  (forall L y, In y (lay s L) -> sz s' y = len' y) -> (forall u, mux_gsize s' u = mux_gsize s u) ->
+  ok_all s (rel s') len' -> (forall y, 1 <= sz s' y) ->
+  (forall e, 0 <= emax s' e) ->
   (forall y e, (y < nsig s)%nat -> kind s' y = KEnum e -> In y (erefs s' e)) ->
+  (forall y e, In y (erefs s' e) -> kind s' y = KEnum e /\ (y < nsig s)%nat) ->
+  (forall e, NoDup (erefs s' e)) ->
+  (forall e v, In v (evals s' e) -> vpar s' v = Some e /\ vidx s' v <= emax s' e /\ (v < nval s')%nat) ->
   InvA s'.
 Proof.
-  intros s s' len' H En Els Egb Enm Egl Eug Emx Eev Evp Evi Env Hsz Hgs Hok Hpos Hrefs.
+  intros s s' len' H En Els Egb Enm Egl Eug Hsz Hgs Hok Hpos Hemax Hrefs Hrefs2 Hrnd Hvals.
   assert (Hlay : forall L, lay s' L = lay s L).
   { intros [m|u g]; cbn [lay]; unfold gget; rewrite ?Egl, ?Eug; reflexivity. }
   assert (Hlsz : forall L, lsz s' L = lsz s L).
   { intros [m|u g]; cbn [lsz]; [rewrite Els; reflexivity|apply Hgs]. }
   constructor.
-  - intros L. rewrite Hlay, Hlsz. eapply ok_ext; [|apply (Hok L)]. intros t _. split; [reflexivity|apply Hsz].
+  - intros L. rewrite Hlay, Hlsz. eapply ok_ext; [|apply (Hok L)]. intros t Ht. split; [reflexivity|apply (Hsz L t Ht)].
   - intros m. rewrite Els, Egb. apply (a_lsize s H).
   - intros L L' y. rewrite !Hlay. apply (a_excl s H).
-  - intros e. rewrite Emx. apply (a_emax s H).
+  - exact Hemax.
   - intros L y. rewrite Hlay, En. apply (a_alloc s H).
   - intros u. rewrite En, Eug. apply (a_unalloc s H).
   - intros m. rewrite Enm, Egl. apply (a_munalloc s H).
   - intros y e. rewrite En. apply Hrefs.
-  - intros e v. rewrite Eev, Evp, Evi, Env, Emx. apply (a_vals s H).
-  - intros y. rewrite Hsz. apply Hpos.
+  - intros y e. rewrite En. apply Hrefs2.
+  - exact Hrnd.
+  - exact Hvals.
+  - exact Hpos.
 Qed.
 
 Lemma InvA_set_rel : forall s p, InvA s -> ok_all s p (sz s) -> InvA (set_rel s p).
 Proof.
   intros s p H Hok. eapply (InvA_resized s _ (sz s) H); try reflexivity; try assumption.
   - apply (a_size s H).
+  - apply (a_emax s H).
   - apply (a_refs s H).
+  - apply (a_refs2 s H).
+  - apply (a_refs_nd s H).
+  - apply (a_vals s H).
 Qed.
 
-Lemma inv_set_type : forall s x n, InvA s -> vsig s x = true -> resize_ok s x -> InvA (fst (step_set_type s x n)).
+Lemma sig_modify_post0 : forall s x a, InvA s -> 1 <= sz s x + a -> resize_ok s x ->
+  modify_post s x a (rel s) (sz s) (fst (sig_modify_size s x a)) (snd (sig_modify_size s x a)).
 Proof.
-  intros s x n H Hx Hr. unfold step_set_type. destruct (kind s x) as [old| |] eqn:Ek; try exact H.
+  intros s x a H Hnew Hr.
+  destruct (sig_modify_post s x a (rel s) (sz s) H (a_ok s H) (fun _ _ _ _ => eq_refl) Hnew Hr) as [A _].
+  rewrite <- (set_rel_id s) in A. exact A.
+Qed.
+
+Lemma inv_set_type : forall s x n, InvA s -> resize_ok s x -> InvA (fst (step_set_type s x n)).
+Proof.
+  intros s x n H Hr. unfold step_set_type. destruct (kind s x) as [old| |] eqn:Ek; try exact H.
   destruct (Z.leb_spec n 0); [exact H|].
   assert (Eold : sz s x = old) by (unfold sz; rewrite Ek; reflexivity).
-  pose proof (sig_modify_post s x (n - old) H ltac:(lia) Hr) as P.
+  pose proof (sig_modify_post0 s x (n - old) H ltac:(lia) Hr) as P.
   destruct (sig_modify_size s x (n - old)) as [s1 r]. cbn [fst snd] in P.
-  destruct P as [p [-> [Pok Perr]]].
+  destruct P as [p [-> [Pok [Perr _]]]].
   destruct r; cbn [fst].
   - specialize (Pok eq_refl). replace (sz s x + (n - old)) with n in Pok by lia.
     eapply (InvA_resized s _ (upd (sz s) x n) H); try reflexivity.
-    + intros y. unfold sz, esize. cbn. unfold upd. destruct (Nat.eqb_spec y x) as [->|NE]; reflexivity.
+    + intros L y _. unfold sz, esize. cbn. unfold upd. destruct (Nat.eqb_spec y x) as [->|NE]; reflexivity.
     + intros u. unfold mux_gsize. cbn. unfold upd. destruct (Nat.eqb_spec u x) as [->|NE]; [rewrite Ek; reflexivity|reflexivity].
     + exact Pok.
-    + intros y. unfold upd. destruct (Nat.eqb_spec y x); [lia|apply (a_size s H)].
+    + intros y. pose proof (a_size s H y) as Hy. unfold sz, esize in *. cbn. unfold upd. destruct (Nat.eqb_spec y x); [lia|exact Hy].
+    + apply (a_emax s H).
     + intros y e Hy. cbn. unfold upd. destruct (Nat.eqb_spec y x) as [->|NE]; [discriminate|apply (a_refs s H); exact Hy].
+    + intros y e Hy. cbn in Hy. destruct (a_refs2 s H y e Hy) as [A B]. cbn. split; [|exact B].
+      rewrite upd_other; [exact A|]. intros ->. congruence.
+    + apply (a_refs_nd s H).
+    + apply (a_vals s H).
   - apply InvA_set_rel; [exact H|apply Perr; discriminate].
   - apply InvA_set_rel; [exact H|apply Perr; discriminate].
 Qed.
@@ -1624,23 +1746,43 @@ Proof.
   intros s x e H Hx Hr. unfold step_set_enum. destruct (kind s x) as [|old|] eqn:Ek; try exact H.
   assert (Hnew : 1 <= sz s x + (esize s e - sz s x)).
   { unfold esize. pose proof (esize_of_pos (emin s e) (emax s e) (a_emax s H e)). lia. }
-  pose proof (sig_modify_post s x (esize s e - sz s x) H Hnew Hr) as P.
+  pose proof (sig_modify_post0 s x (esize s e - sz s x) H Hnew Hr) as P.
   destruct (sig_modify_size s x (esize s e - sz s x)) as [s1 r]. cbn [fst snd] in P.
-  destruct P as [p [-> [Pok Perr]]].
+  destruct P as [p [-> [Pok [Perr _]]]].
   destruct r; cbn [fst].
   - specialize (Pok eq_refl). replace (sz s x + (esize s e - sz s x)) with (esize s e) in Pok by lia.
     eapply (InvA_resized s _ (upd (sz s) x (esize s e)) H); try reflexivity.
-    + intros y. unfold sz, esize. cbn. unfold upd. destruct (Nat.eqb_spec y x) as [->|NE]; reflexivity.
+    + intros L y _. unfold sz, esize. cbn. unfold upd. destruct (Nat.eqb_spec y x) as [->|NE]; reflexivity.
     + intros u. unfold mux_gsize. cbn. unfold upd. destruct (Nat.eqb_spec u x) as [->|NE]; [rewrite Ek; reflexivity|reflexivity].
     + exact Pok.
-    + intros y. unfold upd. destruct (Nat.eqb_spec y x); [|apply (a_size s H)].
-      unfold esize. apply esize_of_pos. apply (a_emax s H).
+    + intros y. pose proof (a_size s H y) as Hy. unfold sz, esize in *. cbn. unfold upd. destruct (Nat.eqb_spec y x); [|exact Hy].
+      apply esize_of_pos. apply (a_emax s H).
+    + apply (a_emax s H).
     + intros y e' Hy. cbn. unfold upd at 1. destruct (Nat.eqb_spec y x) as [->|NE].
       * intros E. inversion E; subst e'. rewrite upd_same. apply ladd_In. left; reflexivity.
       * intros Hk. pose proof (a_refs s H y e' Hy Hk) as Hin.
         unfold upd. destruct (Nat.eqb_spec e' e) as [->|NE'].
         -- apply ladd_In. right. destruct (Nat.eqb_spec e old) as [->|]; [apply lrem_In; split; assumption|exact Hin].
         -- destruct (Nat.eqb_spec e' old) as [->|]; [apply lrem_In; split; assumption|exact Hin].
+    + intros y e' Hy. cbn in Hy. cbn.
+      assert (Hy' : (y = x /\ e' = e) \/ (y <> x /\ In y (erefs s e'))).
+      { unfold upd in Hy at 1. destruct (Nat.eqb_spec e' e) as [Ee|NE'].
+        - subst e'. apply ladd_In in Hy. destruct Hy as [Ey|Hy]; [left; split; [exact Ey|reflexivity]|].
+          unfold upd in Hy. destruct (Nat.eqb_spec e old) as [Eo|NEo].
+          + subst old. apply lrem_In in Hy. right. tauto.
+          + destruct (Nat.eq_dec y x) as [Ey|NEy]; [|right; split; assumption].
+            subst y. destruct (a_refs2 s H x e Hy) as [K _]. congruence.
+        - unfold upd in Hy. destruct (Nat.eqb_spec e' old) as [Eo|NEo].
+          + subst old. apply lrem_In in Hy. right. tauto.
+          + destruct (Nat.eq_dec y x) as [Ey|NEy]; [|right; split; assumption].
+            subst y. destruct (a_refs2 s H x e' Hy) as [K _]. congruence. }
+      destruct Hy' as [[Ey Ee]|[NEy Hin]].
+      * subst y e'. rewrite upd_same. split; [reflexivity|apply vsig_lt; exact Hx].
+      * rewrite upd_other by exact NEy. apply (a_refs2 s H). exact Hin.
+    + intros e'. cbn. unfold upd at 1. destruct (Nat.eqb_spec e' e) as [->|NE'].
+      * apply ladd_NoDup. unfold upd. destruct (Nat.eqb_spec e old); [apply lrem_NoDup|]; apply (a_refs_nd s H).
+      * unfold upd. destruct (Nat.eqb_spec e' old); [apply lrem_NoDup|]; apply (a_refs_nd s H).
+    + apply (a_vals s H).
   - apply InvA_set_rel; [exact H|apply Perr; discriminate].
   - apply InvA_set_rel; [exact H|apply Perr; discriminate].
 Qed.
